@@ -575,7 +575,7 @@ def run(ck):
     ck.rule = ("bounded-exhaustive: all operation sequences up to length L over the alphabet {setocc(site, c) for c in -2..Nchem, "
                "site out of range, fillperiodic, bad fillperiodic, 4 reorder mappings, every site map of the supercell group, copy, "
                "swap, POSCAR write, POSCAR read} on 2-site supercells (simple cubic 2x1x1, host+interstitial, two-atom cell; 0..2 "
-               "solutes), L = %s for the full / reduced alphabet; random histories on supercells of the 3-D crystal pool; "
+               "solutes), L = %s for the full / reduced alphabet (quick: reduced alphabet on 4 of the 7 cells); random histories on supercells of the 3-D crystal pool; "
                "an evaluation = one operation executed on a real Supercell object and checked; distinct = distinct (cell, state "
                "before, operation); non-trivial = the operation changed the state or raised" % ("3/4" if ck.quick else "4/5"))
     ck.trusted += ["harness/c28.py, sclib.py: observation of occ/chemorder, own POSCAR reader (text -> site lists), Coq literal printing",
@@ -607,6 +607,19 @@ def run(ck):
             pre, code, ok = do_step(col, 100 + ns, cfg, impl, pre, op, seq, record=False); seq.append(op)
             if not ok: break
 
+    # 0b. POSCAR of a supercell of a crystal whose interstitial sublattice was added with Crystal.addbasis() (default names)
+    from . import gen as _gen
+    acrys, achem = _gen.named("fcc-oct-tet")
+    ck.case(key="addbasis-names", kind="poscar-names", nontrivial=True)
+    if not all(isinstance(nm, str) for nm in acrys.chemistry):
+        probe = Cfg("fcc-oct-tet (Crystal.FCC(1.).addbasis(...))", acrys, np.eye(3, dtype=int), (achem,), 0)
+        try:
+            probe.sup0.POSCAR()
+        except TypeError as e:
+            col.violation("c28-poscar-int-chemistry", "POSCAR() of a supercell of a crystal made by addbasis() without species names raises %r "
+                          "(chemistry=%r)" % (e, acrys.chemistry),
+                          dict(cfg=probe.spec(), chemistry=[repr(x) for x in acrys.chemistry], ops=[["write"]], exception=repr(e)))
+
     # 1. bounded-exhaustive sequences on real objects
     dfull, dred = (3, 4) if ck.quick else (4, 5)
     for ci, cfg in enumerate(cfgs):
@@ -615,7 +628,7 @@ def run(ck):
         pre, problems = impl.obs()
         n0 = col.nodes
         dfs(col, ci, cfg, impl, pre, dfull, full, [])
-        if cfg.N <= 2: dfs(col, ci, cfg, impl, pre, dred, red, [])
+        if cfg.N <= 2 and (not ck.quick or ci in (0, 2, 3, 4)): dfs(col, ci, cfg, impl, pre, dred, red, [])
         ck.note("%s Nsolute=%d: alphabet %d/%d, %d operations executed, %d distinct transitions" %
                 (cfg.label, cfg.Nsolute, len(full), len(red), col.nodes - n0, len(col.triples.get(ci, {}))))
     ck.extra["exhaustive"] = True
@@ -640,16 +653,7 @@ def run(ck):
         else:
             sl = np.eye(3, dtype=int)
         inter = tuple(c for c in range(crys.Nchem) if c == chem and crys.Nchem > 1 and rng.random() < 0.6)
-        if not all(isinstance(nm, str) for nm in crys.chemistry):
-            # Crystal.addbasis() without names gives the new species integer names; stoichiometry()/POSCAR() then raise
-            probe = Cfg(label, crys, np.eye(3, dtype=int), inter, 0)
-            ck.case(key=("int-chemistry", label), kind="poscar-names", nontrivial=True)
-            try:
-                probe.sup0.POSCAR()
-            except TypeError as e:
-                col.violation("c28-poscar-int-chemistry", "%s: POSCAR() of a supercell of a crystal made by addbasis() without species "
-                              "names raises %r (chemistry=%r)" % (label, e, crys.chemistry),
-                              dict(cfg=probe.spec(), chemistry=[repr(x) for x in crys.chemistry], ops=[["write"]], exception=repr(e)))
+        if not all(isinstance(nm, str) for nm in crys.chemistry):      # reported once above (c28-poscar-int-chemistry); rename to go on
             crys = crystal.Crystal(crys.lattice, crys.basis, chemistry=[str(x) for x in crys.chemistry])
         cfg = Cfg("%s-det%d" % (label, abs(int(round(np.linalg.det(sl))))), crys, sl, inter, rng.choice([0, 1, 1, 2]))
         tr = random_trace(col, 1000 + k, cfg, rng, length, avoid_guard=defect_seen)
